@@ -1,15 +1,15 @@
 SPECIFICATION Spec
 CONSTANTS
-  N = 2
+  N = 3
   Repaired = TRUE
   MaxObjFields = 2
   MaxUnionFields = 1
   MapExprs = FALSE
-  Kinds = {"enum","alias","object","union"}
-  Bearer = TRUE
-  Decls = {"safe","unsafe","dnl"}
+  Kinds = {"object"}
+  Bearer = FALSE
+  Decls = {"safe","unsafe"}
   ArgMode = "perm"
   MaxArgs = 0
-  EmitMod = 1
+  EmitMod = 12
 INVARIANTS Sound Complete MemoClean MemoSound Emit
 CHECK_DEADLOCK FALSE
